@@ -91,8 +91,12 @@ fn main() {
 								};
 								for held in helds {
 									let mut progs: Vec<(Vec<Stmt>, Budget)> = Vec::new();
-									let body_rw =
-										if write { vec![Step::Write(0, 7), Step::Read(0)] } else { vec![Step::Read(0)] };
+									// every session also probes ThreadKey::get() while holding
+									let body_rw = if write {
+										vec![Step::Write(0, 7), Step::Read(0), Step::GetKey]
+									} else {
+										vec![Step::Read(0), Step::GetKey]
+									};
 									match family {
 										"acq" => {
 											let b = Budget { refusals: if quick { 2 } else { 3 }, faults: 0, max_runs: 400 };
@@ -397,7 +401,7 @@ fn main() {
 			for (c, apis) in [
 				(0usize, vec![Api::Lock, Api::Try, Api::Scoped, Api::ScopedTry]),
 				(1, vec![Api::Try, Api::ScopedTry]),
-				(2, vec![Api::Lock, Api::Scoped]),
+				(2, vec![Api::Lock, Api::Try, Api::Scoped, Api::ScopedTry]),
 				(3, vec![Api::Lock, Api::ScopedTry]),
 			] {
 				for api in apis {
